@@ -172,17 +172,19 @@ def _enumerate(ctx, Lmax):
 def gen_case(draw, Lmax):
     L = draw(st.one_of(st.integers(1, 8), st.integers(1, Lmax)))
     gaps = draw(st.lists(st.sampled_from([4, 6, 10, 30]), min_size=L - 1, max_size=L - 1))
-    axis = [0]
+    dim = draw(st.sampled_from(["time", "band"]))
+    # numeric axes may start below zero, so that the label 0 (or 0.0) sits in the middle of the axis, at its end, or off it
+    start = 0 if dim == "time" else draw(st.sampled_from([0, 0, -4, -10, -20, -60, 3]))
+    axis = [start]
     for g in gaps:
         axis.append(axis[-1] + g)
-    dim = draw(st.sampled_from(["time", "band"]))
 
     def lab():
         kind = draw(st.sampled_from(["none", "on", "on", "between", "before", "after"]))
         if kind == "none":
             return None, kind
         if kind == "on":
-            return draw(st.sampled_from(axis)), kind
+            return draw(st.sampled_from(axis + ([0] if 0 in axis else []))), kind
         if kind == "before":
             return axis[0] - draw(st.sampled_from([1, 3, 11])), kind
         if kind == "after":
